@@ -56,6 +56,18 @@ pub fn gen_head(r: &mut StdRng) -> Vec<u8> {
     h
 }
 pub fn mutate(r: &mut StdRng, mut h: Vec<u8>) -> Vec<u8> {
+    // one mutation in six goes next to a line end: a CR / LF / blank inserted just before or just after a CRLF
+    if r.gen_range(0..6) == 0 {
+        let ends: Vec<usize> = h.windows(2).enumerate().filter(|(_, w)| w == b"\r\n").map(|(i, _)| i).collect();
+        if let Some(&i) = ends.choose(r) {
+            let b = *b"\r\r\n \t".choose(r).unwrap();
+            let at = if r.gen_bool(0.7) { i } else { i + 2 };
+            h.insert(at.min(h.len()), b);
+            if r.gen_bool(0.7) {
+                return h;
+            }
+        }
+    }
     for _ in 0..r.gen_range(1..=2) {
         let pool: &[u8] = b"\r\n \t:/?%#\\\x00\x7f\x80\xff\"{a1.";
         let b = if r.gen_bool(0.7) { *pool.choose(r).unwrap() } else { r.gen() };
@@ -217,6 +229,9 @@ pub fn run_splits(args: &Args, mut out: Out) {
         b" / HTTP/1.1\r\n\r\n",
         b"M / HTTP/1.1\r\na:\x80\r\n\r\n",
         b"M /\r\n\r\nM / HTTP/1.1\r\n\r\n",
+        b"M / HTTP/1.1\r\r\n\r\n",
+        b"M / HTTP/1.1\r\r\na:b\r\n\r\n",
+        b"M / HTTP/1.1\r\na:b\r\r\n\r\n",
     ] {
         inputs.push((h.to_vec(), vec![15, 16, 17, 21, 24]));
     }
